@@ -13,14 +13,17 @@
                    `StdfsEntry::from` back to its target key (`linkTextOkB`; fails e.g. for a target
                    whose name contains `$`); (c) the process cwd is an existing directory;
                    (d) no path argument of `op`, resolved lexically, has a link as a proper ancestor
-                   (`argOk`); (e) the operation-specific exclusions `opOk`, one per finding S1–S6, S8, S12–S14;
-  * `CoveredS op`— the 33 operations for which the refinement is proved;
+                   (`argOk`); (e) the operation-specific exclusions `opOk`, one per finding S6–S8, S12–S14, S16 (for the listings and `chown` also `keysRT`:
+                   every key, rendered, is resolved by `abs` to itself — `DirEntry::path()` is re-resolved)
+                   (S1–S5 and S15 were repaired in the Rust code and their exclusions are gone);
+  * `CoveredS op`— the 41 operations for which the refinement is proved;
   * `ResMatchOkErr` — ok-vs-err agreement and, on ok, equal values;
   * `TEquiv`     — same cwd and the same node under every key.
 
   Property theorems only; proofs are in `Rivia/Lemmas/Stdfs*.lean`.
 -/
 import Rivia.Props.C05
+import Rivia.Props.C01A
 import Rivia.Lemmas.StdfsMain
 
 namespace Rivia.Props
@@ -57,43 +60,45 @@ def D2base (env : Env) (t : T) (op : Op) : Prop :=
   (linksOkB t && linkTextOkB env t && isDir t t.cwd && (opArgs op).all (argOk env t)) = true
 instance (env : Env) (t : T) (op : Op) : Decidable (D2base env t op) := by unfold D2base; infer_instance
 
-/-- S1: `remove` of a link to a directory FAILS on Stdfs (`fs::metadata` follows the link, then
-    `fs::remove_dir` on the link is `ENOTDIR`); the reference removes the link -/
-theorem C02_S1_remove_link_to_dir :
-    Wf treeLinkDir ∧ D2base envNone treeLinkDir (.remove ['/', 'l']) ∧
-    Stdfs.step envNone treeLinkDir (.remove ['/', 'l']) = (.err .ioOther, treeLinkDir) ∧
+/-! #### S1–S5: repaired in the Rust code (commits 07b9520, 65f3327, 1506af7, fb609ee, 0b4a978); the
+     former witnesses are now points of agreement -/
+
+/-- S1 (repaired): `remove` of a link to a directory removes the link, as the reference does -/
+theorem C02_S1_repaired_remove_link_to_dir :
+    Wf treeLinkDir ∧ D2 envNone treeLinkDir (.remove ['/', 'l']) ∧
+    Stdfs.step envNone treeLinkDir (.remove ['/', 'l']) = (.ok .unit, del treeLinkDir [['l']]) ∧
     specStep envNone treeLinkDir (.remove ['/', 'l']) = some (.ok .unit, del treeLinkDir [['l']]) :=
   ⟨by decide, by decide, by decide, rfl⟩
 
-/-- S2: `mkdir_m` on an existing regular file returns `Ok` (`path.exists()` is true, so nothing is
-    created and nothing is checked); the reference reports IsNotDir -/
-theorem C02_S2_mkdir_m_on_file :
-    Wf treeLinkFile ∧ D2base envNone treeLinkFile (.mkdirM ['/', 'f'] 0o755) ∧
-    Stdfs.step envNone treeLinkFile (.mkdirM ['/', 'f'] 0o755) = (.ok (.path [['f']]), treeLinkFile) ∧
-    specStep envNone treeLinkFile (.mkdirM ['/', 'f'] 0o755) = some (.err (some .isNotDir), treeLinkFile) :=
-  ⟨by decide, by decide, by decide, rfl⟩
+/-- S2 (repaired): `mkdir_m` on an existing regular file fails with IsNotDir, as the reference does -/
+theorem C02_S2_repaired_mkdir_m_on_file :
+    Wf treeLinkFile ∧ D2 envNone treeLinkFile (.mkdirM ['/', 'f'] 0o755) ∧
+    Stdfs.step envNone treeLinkFile (.mkdirM ['/', 'f'] 0o755) = (.err .isNotDir, treeLinkFile) ∧
+    Stdfs.step envNone treeLinkFile (.mkdirM ['/', 'l'] 0o755) = (.err .isNotDir, treeLinkFile) ∧
+    specStep envNone treeLinkFile (.mkdirM ['/', 'f'] 0o755) = some (.err (some .isNotDir), treeLinkFile) ∧
+    specStep envNone treeLinkFile (.mkdirM ['/', 'l'] 0o755) = some (.err (some .isNotDir), treeLinkFile) :=
+  ⟨by decide, by decide, by decide, by decide, rfl, rfl⟩
 
-/-- S3: `readlink_abs` on a regular file returns `Ok` of the EMPTY path (the `alt` of a non-link
-    `StdfsEntry`); the reference (and Memfs: IsNotSymlink) report an error -/
-theorem C02_S3_readlink_abs_on_file :
-    Wf treeLinkFile ∧ D2base envNone treeLinkFile (.readlinkAbs ['/', 'f']) ∧
-    Stdfs.step envNone treeLinkFile (.readlinkAbs ['/', 'f']) = (.ok (.str []), treeLinkFile) ∧
+/-- S3 (repaired): `readlink_abs` on a regular file fails with IsNotSymlink; the reference fails too -/
+theorem C02_S3_repaired_readlink_abs_on_file :
+    Wf treeLinkFile ∧ D2 envNone treeLinkFile (.readlinkAbs ['/', 'f']) ∧
+    Stdfs.step envNone treeLinkFile (.readlinkAbs ['/', 'f']) = (.err .isNotSymlink, treeLinkFile) ∧
     specStep envNone treeLinkFile (.readlinkAbs ['/', 'f']) = some (.err none, treeLinkFile) :=
   ⟨by decide, by decide, by decide, rfl⟩
 
-/-- S4: `remove_all` of a regular file FAILS on Stdfs (`fs::remove_dir_all` opens the path as a
-    directory: `ENOTDIR`); the reference removes it -/
-theorem C02_S4_remove_all_on_file :
-    Wf treeLinkFile ∧ D2base envNone treeLinkFile (.removeAll ['/', 'f']) ∧
-    Stdfs.step envNone treeLinkFile (.removeAll ['/', 'f']) = (.err .ioOther, treeLinkFile) ∧
-    (∃ t', specStep envNone treeLinkFile (.removeAll ['/', 'f']) = some (.ok .unit, t') ∧ get t' [['f']] = none) :=
-  ⟨by decide, by decide, by decide, _, rfl, by decide⟩
+/-- S4 (repaired): `remove_all` of a regular file (and of a link) removes it, as the reference does -/
+theorem C02_S4_repaired_remove_all_on_file :
+    Wf treeLinkFile ∧ D2 envNone treeLinkFile (.removeAll ['/', 'f']) ∧
+    Stdfs.step envNone treeLinkFile (.removeAll ['/', 'f']) = (.ok .unit, del treeLinkFile [['f']]) ∧
+    Stdfs.step envNone treeLinkFile (.removeAll ['/', 'l']) = (.ok .unit, del treeLinkFile [['l']]) ∧
+    (∃ t', specStep envNone treeLinkFile (.removeAll ['/', 'f']) = some (.ok .unit, t') ∧
+      t' = del treeLinkFile [['f']]) :=
+  ⟨by decide, by decide, by decide, by decide, _, rfl, by decide⟩
 
-/-- S5: `is_dir` does not call `abs`: the kernel resolves `x/../d` physically and `x` does not exist;
-    lexically (reference, Memfs) it is `/d` -/
-theorem C02_S5_is_dir_skips_abs :
-    Wf treeLinkDir ∧ D2base envNone treeLinkDir (.isDir ['x', '/', '.', '.', '/', 'd']) ∧
-    Stdfs.step envNone treeLinkDir (.isDir ['x', '/', '.', '.', '/', 'd']) = (.ok (.bool false), treeLinkDir) ∧
+/-- S5 (repaired): `is_dir` resolves its argument with `abs` like every other method -/
+theorem C02_S5_repaired_is_dir_uses_abs :
+    Wf treeLinkDir ∧ D2 envNone treeLinkDir (.isDir ['x', '/', '.', '.', '/', 'd']) ∧
+    Stdfs.step envNone treeLinkDir (.isDir ['x', '/', '.', '.', '/', 'd']) = (.ok (.bool true), treeLinkDir) ∧
     specStep envNone treeLinkDir (.isDir ['x', '/', '.', '.', '/', 'd']) = some (.ok (.bool true), treeLinkDir) :=
   ⟨by decide, by decide, by decide, rfl⟩
 
@@ -174,6 +179,25 @@ theorem C02_S14_move_cwd :
     (∃ t', specStep envNone treeCwd (.moveP ['/', 'd'] ['/', 'e']) = some (.ok .unit, t') ∧ t'.cwd = [['d']]) :=
   ⟨by decide, by decide, by decide, by decide, _, rfl, rfl⟩
 
+/-- S15 (repaired, fcf2bdc): `all_paths` (also `all_dirs`, `all_files`) of a link to a directory is
+    IsNotDir, like the reference (it used to be an empty listing) -/
+theorem C02_S15_repaired_all_paths_of_link_to_dir :
+    Wf treeLinkDir ∧ D2 envNone treeLinkDir (.allPaths ['/', 'l']) ∧
+    Stdfs.step envNone treeLinkDir (.allPaths ['/', 'l']) = (.err .isNotDir, treeLinkDir) ∧
+    specStep envNone treeLinkDir (.allPaths ['/', 'l']) = some (.err (some .isNotDir), treeLinkDir) :=
+  ⟨by decide, by decide, by decide, rfl⟩
+
+/-- S16: `chown` goes through `chown(2)`, which follows links: the owner of the TARGET changes; the
+    reference (and Memfs) change the owner of the link itself -/
+theorem C02_S16_chown_follows_link :
+    Wf treeLinkFile ∧ D2base envNone treeLinkFile (.chown ['/', 'l'] 5 6) ∧
+    (Stdfs.step envNone treeLinkFile (.chown ['/', 'l'] 5 6)).1 = .ok .unit ∧
+    (get (Stdfs.step envNone treeLinkFile (.chown ['/', 'l'] 5 6)).2 [['f']]).map (·.uid) = some 5 ∧
+    (get (Stdfs.step envNone treeLinkFile (.chown ['/', 'l'] 5 6)).2 [['l']]).map (·.uid) = some 1000 ∧
+    (∃ t', specStep envNone treeLinkFile (.chown ['/', 'l'] 5 6) = some (.ok .unit, t') ∧
+      (get t' [['l']]).map (·.uid) = some 5 ∧ (get t' [['f']]).map (·.uid) = some 1000) :=
+  ⟨by decide, by decide, by decide, by decide, by decide, _, rfl, by decide, by decide⟩
+
 /-! ### the full statement is false -/
 
 /-- the per-step refinement without the operation-specific exclusions, for every operation -/
@@ -184,10 +208,10 @@ def C02_stdfs_refines_reference_full : Prop :=
 
 theorem C02_stdfs_refines_reference_full_false : ¬ C02_stdfs_refines_reference_full := by
   intro h
-  obtain ⟨hW, hD, hS, hR⟩ := C02_S1_remove_link_to_dir
-  have := (h envNone treeLinkDir (.remove ['/', 'l']) _ _ hW hD hR).1
+  obtain ⟨hW, hD, hS, hR⟩ := C02_S6_is_exec_follows_link
+  have := (h envNone treeLinkFile (.isExec ['/', 'l']) _ _ hW hD hR).1
   rw [hS] at this
-  exact this
+  exact absurd this (by simp [ResMatchOkErr])
 
 /-! ### the theorem -/
 
@@ -199,14 +223,18 @@ theorem C02_stdfs_refines_reference_partial (env : Env) (t : T) (op : Op) (r : R
   refines_step env t op r t' hW hD hC h
 
 /-- every covered operation is covered by the reference, except `mkdir_m` with a mode outside
-    `1 … 0o7777` -/
+    `1 … 0o7777` and `chown_b` with `follow` -/
 theorem C02_covered_specified (env : Env) (t : T) (op : Op) (hC : CoveredS op = true)
-    (hm : ∀ p m, op = .mkdirM p m → permOk m = true ∧ m ≠ 0) : (specStep env t op).isSome = true := by
+    (hm : ∀ p m, op = .mkdirM p m → permOk m = true ∧ m ≠ 0)
+    (hf : ∀ p c, op = .chownB p c → c.follow = false) : (specStep env t op).isSome = true := by
   cases op <;> first | rfl | cases hC | skip
-  rename_i p m
-  simp only [specStep]
-  rw [if_pos (hm p m rfl)]
-  rfl
+  · rename_i p m
+    simp only [specStep]
+    rw [if_pos (hm p m rfl)]
+    rfl
+  · rename_i p c
+    simp only [specStep, hf p c rfl]
+    rfl
 
 /-- C02, composition: if the Memfs step refines the reference from the state `s` (C01, taken as a
     hypothesis in its own shape) then, started from the same tree (`absS s`), both backends return
@@ -221,6 +249,23 @@ theorem C02_backends_agree_partial (env : Env) (s : State) (op : Op) (r : R Val)
       TEquiv (absS (Memfs.step env s op).2) (Stdfs.step env (absS s) op).2 :=
   backends_agree env s op r t' (hMem r t' h) (refines_step env (absS s) op r t' hW hD hC h) hr
 
+/-- C02 for the group-A operations of C01 (queries and simple creators), with the Memfs side DISCHARGED
+    by `C01_refines_step_groupA`: under the decidable state invariants of C01 (`Inv`, `KeysWf`,
+    `EntriesOk`, class "-") and of C02 (`Wf`, `D2` of the abstracted tree), `Memfs.step` on `s` and
+    `Stdfs.step` on the tree `absS s` return ok/err together, equal values on ok, and leave equivalent
+    trees — whenever the reference pins the result down -/
+theorem C02_backends_agree_groupA (env : Env) (s : State) (op : Op) (r : R Val) (t' : T)
+    (hA : Rivia.Lemmas.RefineA.GroupA op = true)
+    (hI : Spec.Inv s) (hK : Rivia.Lemmas.RefineA.KeysWf s) (hOk : Rivia.Lemmas.RefineA.EntriesOk s)
+    (hCl : classOf s env op = "-")
+    (hW : Wf (absS s)) (hD : D2 env (absS s) op)
+    (h : specStep env (absS s) op = some (r, t')) (hr : r ≠ .unspecified) :
+    OutcomeAgree (Memfs.step env s op).1 (Stdfs.step env (absS s) op).1 ∧
+      TEquiv (absS (Memfs.step env s op).2) (Stdfs.step env (absS s) op).2 :=
+  C02_backends_agree_partial env s op r t'
+    (fun r t' h => C01_refines_step_groupA env s op hA hI hK hOk hCl r t' h)
+    hW hD (groupA_covered op hA) h hr
+
 /-! ### non-vacuity -/
 
 /-- `/d/f` a file with content, `/l → /d/f`, `/k → /d`; cwd `/d` -/
@@ -232,18 +277,18 @@ def okTree : T :=
 example : Wf okTree ∧ D2 envNone okTree (.appendAll ['f'] [33]) ∧ CoveredS (.appendAll ['f'] [33]) = true ∧
     D2 envNone okTree (.isSymlinkDir ['.', '.', '/', 'k']) ∧ D2 envNone okTree (.remove ['/', 'l']) ∧
     D2 envNone okTree (.isDir ['/', 'd']) ∧ D2 envNone okTree (.moveP ['f'] ['/', 'g']) ∧
-    D2 envNone okTree (.mkdirP ['x', '/', 'y']) ∧ D2 envNone okTree (.mkdirM ['/', 'z'] 0o700) :=
-  ⟨by decide, by decide, rfl, by decide, by decide, by decide, by decide, by decide, by decide⟩
+    D2 envNone okTree (.mkdirP ['x', '/', 'y']) ∧ D2 envNone okTree (.mkdirM ['/', 'z'] 0o700) ∧
+    D2 envNone okTree (.allPaths ['/']) ∧ D2 envNone okTree (.files ['.']) ∧ D2 envNone okTree (.allDirs ['/', 'd']) :=
+  ⟨by decide, by decide, rfl, by decide, by decide, by decide, by decide, by decide, by decide,
+   by decide, by decide, by decide⟩
 
 -- OPEN (not proved): the refinement for the operations outside `CoveredS` that the reference covers:
 --   * `chmod` / `chmodB` (octal and symbolic; `Stdfs.chmod` = `chmodVisit`, a contents-first/dirs-first
 --     walk with `pre_op`) against `TreeFs.chmodOctal` / `chmodSym`;
 --   * `chown` / `chownB` (`Stdfs.chown` = `walkPre`) against `TreeFs.chown`;
---   * `paths dirs files allPaths allDirs allFiles` (`listKids`: sorted pre-order walk = `sortP` of the
---     filtered keys; `dirs`/`files`/`allDirs`/`allFiles` additionally need "no link child", finding S7);
 --   (`mkfileM`, `copy`, `copyB`, `entry`, `entries`, handles: the reference does not cover them.)
 -- OPEN (not proved): syntactic sufficient conditions for two computational clauses of `D2`:
---   * `rawOk env t p` holds when `p` is already a clean absolute path without `~`/`$`;
---   * `linkTextOkB env t` holds when every key of `t` consists of well-formed names without `~`/`$`.
+--   `linkTextOkB env t` and `keysRT env t` hold when every key of `t` consists of well-formed names
+--   without `~`/`$`.
 
 end Rivia.Props
